@@ -109,7 +109,10 @@ class AWSElastiCacheHashClient(HashClient):
         self.retry_timeout = retry_timeout
         self.dead_timeout = dead_timeout
         self.use_pooling = use_pooling
-        self.key_prefix = key_prefix
+        if isinstance(key_prefix, str):
+            self.key_prefix = key_prefix.encode("ascii")
+        else:
+            self.key_prefix = key_prefix
         self.ignore_exc = ignore_exc
         self.allow_unicode_keys = allow_unicode_keys
         self._failed_clients = {}
